@@ -670,8 +670,108 @@ def partial_struct_arg(sig, call):
     return False
 
 
+def rec_sizes(sig, call):
+    """bytes each argument occupies in the callee's record (after the 4 errno bytes)"""
+    out = []
+    for j, t in enumerate(sig["args"]):
+        k = cc.kind(t)
+        if t == 'long double':
+            out.append(8)
+        elif k == 'struct':
+            out.append(sum(8 if ft == 'long double' else cc.sizeof(ft) for fn, ft in cc.STRUCTS[t]))
+        elif k == 'ptr':
+            a = call["args"][j] if j < len(call["args"]) else ["null"]
+            out.append(1 + (call["plen"][j] if a[0] not in ("null",) else 0))
+        elif k == 'fnptr':
+            out.append(5)
+        else:
+            out.append(cc.sizeof(t))
+    return out
+
+
+def locate_rec_diff(sig, call, a, b):
+    """human-readable position of the first difference between two records (hex strings)"""
+    x, y = bytes.fromhex(a), bytes.fromhex(b)
+    if len(x) != len(y):
+        return "record lengths %d vs %d" % (len(x), len(y))
+    i = next((i for i in range(len(x)) if x[i] != y[i]), None)
+    if i is None:
+        return "records equal"
+    if i < 4:
+        return "errno seen by the callee: %s vs %s" % (x[:4].hex(), y[:4].hex())
+    pos = 4
+    if not sig.get("variadic"):
+        for j, n in enumerate(rec_sizes(sig, call)):
+            if pos <= i < pos + n:
+                return "argument %d (%s), byte %d of its %d recorded bytes: %s vs %s" % (
+                    j, sig["args"][j], i - pos, n, x[pos:pos + n].hex(), y[pos:pos + n].hex())
+            pos += n
+    return "record byte %d: %s vs %s" % (i, x[max(0, i - 4):i + 8].hex(), y[max(0, i - 4):i + 8].hex())
+
+
+def eightbyte_classes(t):
+    """x86-64 SysV classification of an argument type: list of 'I' (INTEGER) / 'S' (SSE) per eightbyte, or None when
+    the argument is passed in memory"""
+    k = cc.kind(t)
+    if k in ('int', 'bool', 'char', 'ptr', 'fnptr'):
+        return ['I']
+    if t in ('float', 'double'):
+        return ['S']
+    if t == 'long double':
+        return None
+    if k == 'struct':
+        leaves, off = [], 0
+        for fn, ft in cc.STRUCTS[t]:
+            off += (-off) % cc.alignof(ft)
+            leaves.append((off, ft))
+            off += cc.sizeof(ft)
+    elif k == 'astruct':
+        leaves, off = [], 0
+        for ft in cc.ASTRUCTS[t][1]:
+            leaves.append((off, ft))
+            off += cc.sizeof(ft)
+    else:
+        return None
+    size = cc.sizeof(t)
+    if size > 16 or any(ft == 'long double' for o, ft in leaves):
+        return None
+    cls = ['S'] * ((size + 7) // 8)
+    for o, ft in leaves:
+        if ft not in ('float', 'double'):
+            cls[o // 8] = 'I'
+    return cls
+
+
+def libffi_gpr5_spill(sig):
+    """libffi 3.4.4 (ffi64.c, ffi_call_int) copies the REMAINING size of a struct into the general register slot
+    of an INTEGER eightbyte: when a 9..16-byte struct (INTEGER, SSE) gets the sixth and last general register, the
+    copy runs over into sse[0] and destroys the first SSE argument assigned earlier.  True when this signature
+    meets exactly that condition."""
+    gpr = sse = 0
+    for t in sig["args"]:
+        cls = eightbyte_classes(t)
+        if cls is None:
+            continue
+        ng, ns = cls.count('I'), cls.count('S')
+        if gpr + ng > 6 or sse + ns > 8:
+            continue                     # in memory
+        if cc.kind(t) in ('struct', 'astruct') and cls == ['I', 'S'] and gpr == 5 and sse >= 1:
+            return True
+        gpr += ng
+        sse += ns
+    return False
+
+
 def finding_key(sig, call, outs=None):
-    """known-finding class of a disagreement, or None (no open finding)"""
+    """known-finding class of a disagreement, or None"""
+    if outs is not None and not sig.get("variadic") and libffi_gpr5_spill(sig):
+        # narrow: only the API path differs from the three libffi paths, and only in what the callee received (and a
+        # value echoed back); same exception status, errno and memory effects
+        lib = outs[1:]
+        if all(outcome_key(o) == outcome_key(lib[0]) for o in lib) and outs[0].get("exc") is None and lib[0].get("exc") is None \
+                and outs[0].get("errno") == lib[0].get("errno") and outs[0].get("mem") == lib[0].get("mem") \
+                and len(outs[0].get("rec", "")) == len(lib[0].get("rec", "")):
+            return "libffi_gpr5_struct_spill"
     return None
 
 
@@ -767,7 +867,11 @@ def evaluate_batch(ctx, batch, asan):
             for o in outs[1:]:
                 for f in ("exc", "ret", "rec", "mem", "errno"):
                     if o.get(f) != outs[0].get(f):
-                        diffs.append("%s: %s=%r vs api %r" % (o["path"], f, str(o.get(f))[:120], str(outs[0].get(f))[:120]))
+                        if f == "rec" and o.get("rec") and outs[0].get("rec"):
+                            diffs.append("%s vs api: callee received different bytes: %s" % (
+                                o["path"], locate_rec_diff(sig, call, o["rec"], outs[0]["rec"])))
+                        else:
+                            diffs.append("%s: %s=%r vs api %r" % (o["path"], f, str(o.get(f))[:160], str(outs[0].get(f))[:160]))
             ctx.violation(single_case(batch, call), "paths disagree for %s: %s" % (describe(sig, call), "; ".join(diffs[:4])),
                           finding_key(sig, call, outs))
             continue
